@@ -3,10 +3,14 @@
 //! concurrent writes through one session with the real MonotonicTimestampGenerator.
 //!   explicit: session generator {none, MonotonicTimestampGenerator, SimpleTimestampGenerator, harness recording
 //!             generator} x request kind {QUERY, QUERY with values (prepared on the fly -> EXECUTE), EXECUTE, paged
-//!             EXECUTE (2 pages), BATCH unprepared / prepared / mixed} x statement timestamp {not set, 9 boundary values}:
+//!             EXECUTE (2 pages), BATCH unprepared / prepared / mixed; the same through statements the node marks as
+//!             LWT in its PREPARED answer (QUERY with values, EXECUTE, execute_single_page x2, execute_iter, BATCH);
+//!             EXECUTE of a statement the node has evicted (UNPREPARED -> PREPARE -> re-sent EXECUTE: both frames)}
+//!             x statement timestamp {not set, 9 boundary values}:
 //!             the frame(s) the node received carry the explicit value unchanged; without one, a timestamp is present
 //!             iff a generator is configured, is one the recording generator handed out / exceeds every earlier value of
-//!             the monotonic generator in this (sequential) caller.
+//!             the monotonic generator in this (sequential) caller (for LWT-marked statements the presence of a
+//!             generated timestamp is not demanded - the property does not state it; a re-sent EXECUTE may repeat the value).
 //!   run:      4 tasks x 50 writes (QUERY / EXECUTE / BATCH rotating) over 2 nodes through one session with the
 //!             monotonic generator: 200 pairwise distinct timestamps at the nodes, strictly increasing along each task.
 use h_mock::sess::{self, RecordingGen};
@@ -25,13 +29,33 @@ use std::sync::Arc;
 use vcore::Report;
 
 const GENS: [&str; 4] = ["none", "monotonic", "simple", "recording"];
-const KINDS: [&str; 7] = ["query", "query-values", "execute", "execute-paged", "batch-unprepared", "batch-prepared", "batch-mixed"];
+const KINDS: [&str; 13] = [
+    "query",
+    "query-values",
+    "execute",
+    "execute-paged",
+    "batch-unprepared",
+    "batch-prepared",
+    "batch-mixed",
+    // the same through statements the node marks as LWT in its PREPARED answer (PreparedStatement::is_confirmed_lwt)
+    "query-values-lwt",
+    "execute-lwt",
+    "execute-single-page-lwt",
+    "execute-paged-lwt",
+    "batch-prepared-lwt",
+    // the node has forgotten the statement: EXECUTE -> UNPREPARED -> PREPARE -> the re-sent EXECUTE
+    "execute-unprepared-resend",
+];
+/// ScyllaDB's LWT_OPTIMIZATION_META_BIT_MASK
+const LWT_MASK: u32 = 0x8000_0000;
 const TS: [i64; 9] = [0, 1, -1, i64::MIN, i64::MAX, 1_700_000_000_000_000, 4_102_444_800_000_000, 1 << 32, -(1 << 53)];
 const GEN_BASE: i64 = 77_000_000_000_000_000;
 
 const Q_INSERT: &str = "INSERT INTO ks.t (a, b) VALUES (1, 'q')";
 const P_INSERT: &str = "INSERT INTO ks.t (a, b) VALUES (?, ?)";
 const P_SELECT: &str = "SELECT a, b FROM ks.t WHERE a = ?";
+const L_INSERT: &str = "INSERT INTO ks.t (a, b) VALUES (?, ?) IF NOT EXISTS";
+const L_UPDATE: &str = "UPDATE ks.t SET b = 'u' WHERE a = ? IF EXISTS";
 const LIT_PREFIX: &str = "INSERT INTO ks.t (a, b) VALUES (";
 
 #[derive(Clone, Debug)]
@@ -53,23 +77,38 @@ struct Env {
     recording: Option<Arc<RecordingGen>>,
     insert: PreparedStatement,
     select: PreparedStatement,
+    lwt_insert: PreparedStatement,
+    /// LWT-marked and answering with 2 rows in pages (as a conditional statement's result set does)
+    lwt_update: PreparedStatement,
 }
 
 async fn setup(generator: usize, nodes: usize) -> Env {
     let mut b = MockCluster::builder();
     for i in 0..nodes {
-        b = b.node(NodeSpec::new("dc1", "r1", vec![-5_000_000_000_000_000_000 + i as i64 * 4_000_000_000_000_000_000, 100 + i as i64]));
+        let mut n = NodeSpec::new("dc1", "r1", vec![-5_000_000_000_000_000_000 + i as i64 * 4_000_000_000_000_000_000, 100 + i as i64]);
+        n.lwt_mark = Some(LWT_MASK);
+        b = b.node(n);
     }
     let cluster = b.keyspace(KeyspaceSpec::simple("ks", 1).table(TableSpec::new("t").pk("a", "int").col("b", "text"))).build().await.unwrap_or_else(|e| vcore::machinery_error(&e));
     let cols = vec![col("ks", "t", "a", ColType::Int), col("ks", "t", "b", ColType::Text)];
     cluster.script(Script::new(LIT_PREFIX).prefix()); // scripts are matched newest first: the exact ones below win
     cluster.script(Script::new(P_INSERT).bind(cols.clone(), vec![0]));
+    let mut li = Script::new(L_INSERT).bind(cols.clone(), vec![0]);
+    li.lwt = true;
+    cluster.script(li);
     let rows = vec![vec![val::int(1), val::text("one")], vec![val::int(2), val::text("two")]];
     let cols2 = cols.clone();
     cluster.script(Script::new(P_SELECT).bind(vec![cols[0].clone()], vec![0]).result(cols.clone()).reply(move |ctx| match paginate(rows.clone(), None, ctx.params()) {
         Ok((page, next)) => Response::rows_paged(cols2.clone(), page, next).into(),
         Err(e) => mockcluster::Reply::error(mockcluster::wire::ErrorBody::invalid(&e)),
     }));
+    let (rows3, cols3) = (vec![vec![val::int(1), val::text("one")], vec![val::int(2), val::text("two")]], cols.clone());
+    let mut lu = Script::new(L_UPDATE).bind(vec![cols[0].clone()], vec![0]).result(cols.clone()).reply(move |ctx| match paginate(rows3.clone(), None, ctx.params()) {
+        Ok((page, next)) => Response::rows_paged(cols3.clone(), page, next).into(),
+        Err(e) => mockcluster::Reply::error(mockcluster::wire::ErrorBody::invalid(&e)),
+    });
+    lu.lwt = true;
+    cluster.script(lu);
     let mut sb = SessionBuilder::new().known_node(cluster.contact_point(0));
     let mut recording = None;
     match GENS[generator] {
@@ -90,7 +129,13 @@ async fn setup(generator: usize, nodes: usize) -> Env {
     let insert = session.prepare(P_INSERT).await.unwrap_or_else(|e| vcore::machinery_error(&format!("prepare: {e}")));
     let mut select = session.prepare(P_SELECT).await.unwrap_or_else(|e| vcore::machinery_error(&format!("prepare: {e}")));
     select.set_page_size(1);
-    Env { cluster, session: Arc::new(session), recording, insert, select }
+    let lwt_insert = session.prepare(L_INSERT).await.unwrap_or_else(|e| vcore::machinery_error(&format!("prepare: {e}")));
+    let mut lwt_update = session.prepare(L_UPDATE).await.unwrap_or_else(|e| vcore::machinery_error(&format!("prepare: {e}")));
+    lwt_update.set_page_size(1);
+    if !lwt_insert.is_confirmed_lwt() || !lwt_update.is_confirmed_lwt() || insert.is_confirmed_lwt() || select.is_confirmed_lwt() {
+        vcore::machinery_error("the LWT mark of the PREPARED answers did not reach PreparedStatement::is_confirmed_lwt as scripted");
+    }
+    Env { cluster, session: Arc::new(session), recording, insert, select, lwt_insert, lwt_update }
 }
 
 fn request_timestamp(e: &LogEntry) -> Option<Option<i64>> {
@@ -115,14 +160,31 @@ async fn drive(env: &Env, c: &Case) -> Result<(), String> {
             st.set_timestamp(ts);
             s.query_unpaged(st, (5i32, "five")).await.map(|_| ()).map_err(|e| e.to_string())
         }
-        "execute" => {
-            let mut ps = env.insert.clone();
+        "query-values-lwt" => {
+            let mut st = Statement::new(L_INSERT);
+            st.set_timestamp(ts);
+            s.query_unpaged(st, (5i32, "five")).await.map(|_| ()).map_err(|e| e.to_string())
+        }
+        k @ ("execute" | "execute-lwt" | "execute-unprepared-resend") => {
+            let mut ps = if k == "execute-lwt" { env.lwt_insert.clone() } else { env.insert.clone() };
             ps.set_timestamp(ts);
+            if k == "execute-unprepared-resend" {
+                env.cluster.evict_prepared(0, Some(&mockcluster::prepared_id(P_INSERT)));
+            }
             s.execute_unpaged(&ps, (6i32, "six")).await.map(|_| ()).map_err(|e| e.to_string())
         }
-        "execute-paged" => {
+        "execute-single-page-lwt" => {
+            let mut ps = env.lwt_update.clone();
+            ps.set_timestamp(ts);
+            let (_, state) = s.execute_single_page(&ps, (1i32,), scylla::response::PagingState::start()).await.map_err(|e| e.to_string())?;
+            match state {
+                scylla::response::PagingStateResponse::HasMorePages { state } => s.execute_single_page(&ps, (1i32,), state).await.map(|_| ()).map_err(|e| e.to_string()),
+                scylla::response::PagingStateResponse::NoMorePages => Err("the node had a second page".into()),
+            }
+        }
+        k @ ("execute-paged" | "execute-paged-lwt") => {
             use futures::StreamExt;
-            let mut ps = env.select.clone();
+            let mut ps = if k == "execute-paged" { env.select.clone() } else { env.lwt_update.clone() };
             ps.set_timestamp(ts);
             let pager = s.execute_iter(ps, (1i32,)).await.map_err(|e| e.to_string())?;
             let mut st = pager.rows_stream::<(i32, String)>().map_err(|e| e.to_string())?;
@@ -136,12 +198,12 @@ async fn drive(env: &Env, c: &Case) -> Result<(), String> {
         k => {
             let mut b = Batch::new(BatchType::Unlogged);
             let mut values: Vec<Box<dyn SerializeRow + Send + Sync>> = Vec::new();
-            if k != "batch-prepared" {
+            if k != "batch-prepared" && k != "batch-prepared-lwt" {
                 b.append_statement(Statement::new(Q_INSERT));
                 values.push(Box::new(()));
             }
             if k != "batch-unprepared" {
-                b.append_statement(env.insert.clone());
+                b.append_statement(if k == "batch-prepared-lwt" { env.lwt_insert.clone() } else { env.insert.clone() });
                 values.push(Box::new((7i32, "seven")));
             }
             if k == "batch-mixed" {
@@ -166,7 +228,10 @@ async fn check_explicit(r: &Report, env: &Env, c: &Case, last_mono: &mut i64) {
         r.violation(&format!("explicit:{}:call-failed", KINDS[c.kind]), &format!("{}: call failed: {e}; frames {shown:?}", c.json()), c.json());
         return;
     }
-    let want_frames = if KINDS[c.kind] == "execute-paged" { 2 } else { 1 };
+    let kind = KINDS[c.kind];
+    let lwt = kind.ends_with("-lwt");
+    let resend = kind == "execute-unprepared-resend";
+    let want_frames = if kind.contains("paged") || kind.contains("single-page") || resend { 2 } else { 1 };
     if frames.len() != want_frames {
         r.violation(&format!("explicit:{}:frame-count", KINDS[c.kind]), &format!("{}: {} request frames instead of {want_frames}: {shown:?}", c.json(), frames.len()), c.json());
         return;
@@ -182,12 +247,18 @@ async fn check_explicit(r: &Report, env: &Env, c: &Case, last_mono: &mut i64) {
                 (got != Some(t)).then(|| format!("the statement's explicit timestamp is {t}, the frame carries {got:?}"))
             }
             (None, "none") => got.map(|t| format!("no timestamp was set and no generator is configured, the frame carries {t}")),
+            // LWT-marked statement without an explicit timestamp: the property does not say whether a generated one is
+            // sent (the unchanged driver sends one); if one is there it must still come from the generator
+            (None, g) if lwt && got.is_none() && g != "none" => {
+                r.counters.add("lwt_frames_without_generated_timestamp", 1);
+                None
+            }
             (None, "recording") => match got {
-                Some(t) if handed.contains(&t) && seen.insert(t) => None,
+                Some(t) if handed.contains(&t) && (seen.insert(t) || resend) => None,
                 other => Some(format!("the frame carries {other:?}; the configured generator handed out {handed:?} during the call (each at most once)")),
             },
             (None, "monotonic") => match got {
-                Some(t) if t > *last_mono => {
+                Some(t) if t > *last_mono || (resend && t == *last_mono) => {
                     *last_mono = t;
                     None
                 }
